@@ -2,11 +2,56 @@
 from vlib.extract import Fn, Impl, Verbatim, Text, Module, Loop
 from .lib_common import BROADCAST, FACTS
 
+S0 = "IntoSpec::<Cow<str>>::into_spec(s)@"
+INTO = ('REQ.into', "<T as IntoSpec<Cow<'a, str>>>::obeys_into_spec()")
+
 
 def module(repo):
+    nf = lambda name, sp, tag: Fn(name, ret='r', requires=[INTO], head=FACTS,
+                                  ensures=[(tag, 'res_view(r) == Ok::<Seq<char>, Error>(%s(%s))' % (sp, S0))])
+    case = Fn(
+        'case_mapping_rule', ret='r', requires=[INTO], head=FACTS,
+        ensures=[('C10.lower', 'res_view(r) == Ok::<Seq<char>, Error>(lower_seq(%s))' % S0)],
+        inserts=[
+            (r'match s\.find\(', 1, 'before',
+             '''proof {
+    if forall|i: int| 0 <= i < s@.len() ==> !pat_matches(has_lowercase_mapping, #[trigger] s@[i]) {
+        assert forall|i: int| 0 <= i < s@.len() implies spec_lower(#[trigger] s@[i]) == seq![s@[i]] by {
+            axiom_pat_fn(has_lowercase_mapping, s@[i]);
+        }
+        lemma_lower_id(s@);
+    }
+}'''),
+            (r'let mut res = String::from', 1, 'before',
+             '''let ghost k: int = choose|k: int| 0 <= k < s@.len() && pos as int == boff(s@, k) && pat_matches(has_lowercase_mapping, s@[k])
+    && forall|i: int| 0 <= i < k ==> !pat_matches(has_lowercase_mapping, #[trigger] s@[i]);
+proof {
+    lemma_boff(s@, k);
+    assert forall|i: int| 0 <= i < s@.take(k).len() implies spec_lower(#[trigger] s@.take(k)[i]) == seq![s@.take(k)[i]] by {
+        axiom_pat_fn(has_lowercase_mapping, s@[i]);
+    }
+    lemma_lower_id(s@.take(k));
+}'''),
+        ],
+        loops={1: Loop(ghost='it', invariants=[
+            ('C10.k', '0 <= k <= s@.len()'),
+            ('C10.seq', 'it.seq() == s@.skip(k)'),
+            ('C10.res', 'res@ == lower_seq(s@.take(k + it.index@))'),
+        ], head='''proof {
+    let i = it.index@;
+    assert(s@.take(k + i + 1) =~= s@.take(k + i).push(s@[k + i]));
+    lemma_lower_push(s@.take(k + i), c);
+}''', post='proof { assert(s@.take(s@.len() as int) =~= s@); }')},
+    )
     return Module('common', 'precis-profiles/src/common.rs', [
         Verbatim(r'pub\s+const\s+SPACE\b'),
-        # table lookup: body verified by Kani against the UCD oracle (ledger `zs_table`)
-        Fn('is_space_separator', ret='r', mode='sig', ensures=[('LEDGER.zs_table', 'r == zs(c)')]),
+        # table lookup: body verified by Kani against the UCD oracle (ledger `tbl_zs`)
+        Fn('is_space_separator', ret='r', mode='sig', ensures=[('LEDGER.tbl_zs', 'r == zs(c)')]),
         Fn('is_non_ascii_space', ret='r', ensures=[('C12.nas', 'r == nas(c)')]),
+        nf('normalization_form_nfkc', 'spec_nfkc', 'C06.nfkc'),
+        nf('normalization_form_nfc', 'spec_nfc', 'C04+C05.nfc'),
+        # iterates std's ToLowercase: verified by Kani for all chars on the real std (ledger `has_lower_mapping`)
+        Fn('has_lowercase_mapping', ret='r', mode='sig',
+           ensures=[('LEDGER.has_lower_mapping', 'r == (spec_lower(c) != seq![c])')]),
+        case,
     ], header='use super::*;\nuse crate::vx::*;\nuse crate::spec::*;\nuse crate::precis_core::Error;\n' + BROADCAST)
